@@ -93,10 +93,12 @@ fn single(toks: &[&str], wait: Duration) -> String {
             _ => out.push("BADOP".to_string()),
         }
     }
-    // clean up: let a still blocked sender through
+    // clean up: let a still blocked sender through; if it never gets through although the channel is
+    // drained, the sender is deadlocked: report it (the thread is leaked, run() stops afterwards)
     if let Some(h) = pending.take() {
-        while !h.is_finished() { let _ = r.try_recv(); std::thread::yield_now(); }
-        h.join().unwrap();
+        let t0 = Instant::now();
+        while !h.is_finished() && t0.elapsed() < Duration::from_secs(3) { let _ = r.try_recv(); std::thread::yield_now(); }
+        if h.is_finished() { h.join().unwrap(); } else { out.push("HUNG".to_string()); }
     }
     out.join(" ")
 }
@@ -117,26 +119,43 @@ fn two_threads(toks: &[&str]) -> String {
         }
         // the sender (and its counter handle) is dropped here
     });
-    let mut got: Vec<(u64, usize)> = Vec::with_capacity(n);
-    let mut x = seed;
-    let mut max_usage: usize = 0;
-    let t0 = Instant::now();
-    while got.len() < n && t0.elapsed() < Duration::from_secs(60) {
-        x = x.wrapping_mul(1664525).wrapping_add(1013904223);
-        let u = mbc::verif_hooks::receiver_usage(&r);
-        if u > max_usage { max_usage = u; }
-        match (x >> 24) % 8 {
-            0 => std::thread::yield_now(),
-            1 => std::thread::sleep(Duration::from_micros(((x >> 16) % 80) as u64)),
-            2 | 3 | 4 => { if let Ok(m) = r.try_recv() { got.push((m.id, m.size)); } }
-            _ => { match r.recv() { Ok(m) => got.push((m.id, m.size)), Err(_) => break } }
+    let receiver = std::thread::spawn(move || {
+        let mut got: Vec<(u64, usize)> = Vec::with_capacity(n);
+        let mut x = seed;
+        let mut max_usage: usize = 0;
+        while got.len() < n {
+            x = x.wrapping_mul(1664525).wrapping_add(1013904223);
+            let u = mbc::verif_hooks::receiver_usage(&r);
+            if u > max_usage { max_usage = u; }
+            match (x >> 24) % 8 {
+                0 => std::thread::yield_now(),
+                1 => std::thread::sleep(Duration::from_micros(((x >> 16) % 80) as u64)),
+                2 | 3 | 4 => { if let Ok(m) = r.try_recv() { got.push((m.id, m.size)); } }
+                _ => { match r.recv() { Ok(m) => got.push((m.id, m.size)), Err(_) => break } }
+            }
         }
+        // give the sender time to finish, then nothing may be left (no duplicates) and the counter must be 0
+        let t0 = Instant::now();
+        let mut extra = false;
+        loop {
+            match r.try_recv() {
+                Ok(_) => { extra = true; break; }
+                Err(crossbeam::channel::TryRecvError::Disconnected) => break,
+                Err(crossbeam::channel::TryRecvError::Empty) => { if t0.elapsed() > Duration::from_secs(5) { break; } std::thread::yield_now(); }
+            }
+        }
+        let fin = mbc::verif_hooks::receiver_usage(&r);
+        let list: Vec<String> = got.iter().map(|(i, z)| format!("{}:{}", i, z)).collect();
+        format!("T final={} max={} extra={} recv={}", fin, max_usage, if extra { 1 } else { 0 }, if list.is_empty() { "-".to_string() } else { list.join(",") })
+    });
+    // watchdog: a deadlocked pair must not hang the harness
+    let t0 = Instant::now();
+    while !(sender.is_finished() && receiver.is_finished()) {
+        if t0.elapsed() > Duration::from_secs(120) { return "T HUNG".to_string(); }
+        std::thread::sleep(Duration::from_millis(1));
     }
     sender.join().unwrap();
-    let extra = r.try_recv().is_ok();     // nothing may be left (no duplicates)
-    let fin = mbc::verif_hooks::receiver_usage(&r);
-    let list: Vec<String> = got.iter().map(|(i, z)| format!("{}:{}", i, z)).collect();
-    format!("T final={} max={} extra={} recv={}", fin, max_usage, if extra { 1 } else { 0 }, if list.is_empty() { "-".to_string() } else { list.join(",") })
+    receiver.join().unwrap()
 }
 
 pub fn run(args: &[String]) -> i32 {
@@ -151,7 +170,14 @@ pub fn run(args: &[String]) -> i32 {
             "T" => two_threads(&toks),
             _ => "BADREQ".to_string(),
         };
+        let hung = out.ends_with("HUNG");
         println!("{}", out);
+        if hung {
+            // a leaked spinning thread is left behind: answer nothing more from this process
+            use std::io::Write;
+            std::io::stdout().flush().ok();
+            std::process::exit(0);
+        }
     }
     0
 }
